@@ -267,12 +267,19 @@ def condition(timed, ops, lock="RLock", rounds=1, copies=False):
 
 
 def event(prog, copies=False):
-    """prog: list of per-thread op lists over set / clear / wait / twait."""
+    """prog: list of per-thread op lists over set / clear / wait / twait.
+    set/clear/wait all end with the release of the event's internal lock and the harness records
+    the outcome in the same atomic step, so the record order is the order of the critical
+    sections: Event.wait must return exactly the flag state left by the last earlier set/clear."""
     def build(S, syn):
         base = syn.Event()
         evs = [E.clone_for_process(syn, base) if copies else base for _ in prog]
         out = S.out
-        has_clear = any("clear" in ops for ops in prog)
+        out["seq"] = 0
+
+        def rec(key, val):
+            out["seq"] += 1
+            out[key] = (out["seq"], val)
 
         def mk(i, ops):
             ev = evs[i]
@@ -281,36 +288,42 @@ def event(prog, copies=False):
                 for j, op in enumerate(ops):
                     if op == "set":
                         ev.set()
-                        out[f"set{i}.{j}"] = 1
+                        rec(f"op{i}.{j}", "set")
                     elif op == "clear":
                         ev.clear()
+                        rec(f"op{i}.{j}", "clear")
                     elif op == "wait":
-                        out[f"w{i}.{j}"] = ev.wait()
+                        rec(f"op{i}.{j}", ("wait", ev.wait()))
                     elif op == "twait":
-                        out[f"w{i}.{j}"] = ev.wait(1.0)
+                        rec(f"op{i}.{j}", ("wait", ev.wait(1.0)))
             return h_actor
 
         def oracle(S, v):
             r = []
-            nset = any(k.startswith("set") for k in out)
-            for k, val in out.items():
-                if not k.startswith("w"):
-                    continue
-                i = int(k[1:].split(".")[0])
-                if val is False and not has_clear:
-                    # never cleared: False is only legal if the timer fired (or never set yet)
-                    if out.get(f"fired:t{i}", 0) == 0 and "twait" not in prog[i]:
-                        r.append(("event-wait-false", f"untimed Event.wait returned False ({k})"))
-                if val is True and not nset:
-                    r.append(("event-wait-true-unset", f"Event.wait returned True but the event "
-                                                       f"was never set ({k})"))
+            events = sorted(val for k, val in out.items() if k.startswith("op"))
+            state = False
+            for seq, what in events:
+                if what == "set":
+                    state = True
+                elif what == "clear":
+                    state = False
+                else:
+                    if what[1] is not state:
+                        r.append((f"event-wait-returns-{what[1]}-while-{'set' if state else 'clear'}",
+                                  f"Event.wait returned {what[1]} although the event was "
+                                  f"{'set' if state else 'not set'} when it returned (order of "
+                                  f"critical sections: {[e[1] for e in events]})"))
+                        break
             blocked = [b for b in S.blocked]
-            if v != "ok" and nset and not has_clear:
-                r.append(("event-waiter-stuck", f"event set, yet {blocked} blocked for ever"))
-            if v != "ok" and any("set" in ops or "clear" in ops for ops, b in zip(prog, [1] * len(prog))) \
-                    and any(b[0].startswith("t") and prog[int(b[0][1:])][-1] in ("set", "clear")
-                            for b in blocked):
-                r.append(("event-setter-stuck", f"{blocked}"))
+            if v != "ok":
+                stuck = [b[0] for b in blocked]
+                # a waiter may stay blocked only if the event is not set at the end
+                if state and any(prog[int(n[1:])][-1] in ("wait",) or True for n in stuck):
+                    r.append(("event-waiter-stuck", f"event is set, yet {blocked} blocked for ever"))
+                if any(prog[int(n[1:])][len([k for k in out if k.startswith(f'op{n[1:]}.')])]
+                       in ("set", "clear") for n in stuck
+                       if len([k for k in out if k.startswith(f'op{n[1:]}.')]) < len(prog[int(n[1:])])):
+                    r.append(("event-setter-stuck", f"{blocked}"))
             return r
         return [(f"t{i}", mk(i, ops)) for i, ops in enumerate(prog)], oracle
     return build
